@@ -22,8 +22,10 @@ type Access struct {
 // fieldAccesses returns every access to st.field in package rpc.
 func (p *Prog) fieldAccesses(st, field string) []Access {
 	var out []Access
-	for _, fn := range p.AllFns {
-		eachInstrLocal(fn, func(in ssa.Instruction) {
+	for _, fn0 := range p.AllFns {
+		// an access inside a plain helper is an access of the function the helper belongs to
+		fn := p.homeOf(fn0)
+		eachInstrLocal(fn0, func(in ssa.Instruction) {
 			switch x := in.(type) {
 			case *ssa.FieldAddr:
 				fr, base, ok := fieldOfAddr(x)
@@ -187,14 +189,36 @@ func rangeParts(r *ssa.Range) (next *ssa.Next, key, val ssa.Value) {
 // (alloc cells, including cells captured by closures of the same top-level
 // function) back to the values stored into them.
 func (p *Prog) origins(v ssa.Value) []ssa.Value {
-	seen := map[ssa.Value]bool{}
+	// octx: the helper calls through whose results the walk went; inside them a parameter is
+	// the argument of that very call (other call sites of the helper do not contribute)
+	type octx struct {
+		call   ssa.CallInstruction
+		h      *ssa.Function
+		parent *octx
+	}
+	type okey struct {
+		v ssa.Value
+		c ssa.CallInstruction
+	}
+	seen := map[okey]bool{}
 	var out []ssa.Value
+	var cx *octx
 	var walk func(v ssa.Value, d int)
+	enter := func(cc ssa.CallInstruction, h *ssa.Function, f func()) {
+		saved := cx
+		cx = &octx{call: cc, h: h, parent: saved}
+		f()
+		cx = saved
+	}
 	walk = func(v ssa.Value, d int) {
-		if v == nil || seen[v] {
+		var cc ssa.CallInstruction
+		if cx != nil {
+			cc = cx.call
+		}
+		if v == nil || seen[okey{v, cc}] {
 			return
 		}
-		seen[v] = true
+		seen[okey{v, cc}] = true
 		if d > 12 {
 			out = append(out, v)
 			return
@@ -210,7 +234,41 @@ func (p *Prog) origins(v ssa.Value) []ssa.Value {
 			walk(x.X, d+1)
 		case *ssa.ChangeInterface:
 			walk(x.X, d+1)
+		case *ssa.Extract:
+			// one result of a plain helper: what the helper returns in that position
+			if cc, isC := x.Tuple.(*ssa.Call); isC {
+				if h := p.calleeOf(cc); h != nil && p.isPlainHelper(h) {
+					n := 0
+					enter(cc, h, func() {
+						eachInstrLocal(h, func(in ssa.Instruction) {
+							if r, isR := in.(*ssa.Return); isR && x.Index < len(r.Results) {
+								n++
+								walk(r.Results[x.Index], d+1)
+							}
+						})
+					})
+					if n > 0 {
+						return
+					}
+				}
+			}
+			out = append(out, v)
 		case *ssa.Call:
+			// the single result of a plain helper: what the helper returns
+			if h := p.calleeOf(x); h != nil && p.isPlainHelper(h) && h.Signature.Results().Len() == 1 {
+				n := 0
+				enter(x, h, func() {
+					eachInstrLocal(h, func(in ssa.Instruction) {
+						if r, isR := in.(*ssa.Return); isR && len(r.Results) == 1 {
+							n++
+							walk(r.Results[0], d+1)
+						}
+					})
+				})
+				if n > 0 {
+					return
+				}
+			}
 			// err := do() inside a helper, do being a closure passed by every caller: what the closures return
 			if prm, isP := x.Common().Value.(*ssa.Parameter); isP && !x.Common().IsInvoke() {
 				if h := prm.Parent(); p.isPlainHelper(h) && p.calledOnly(prm) && len(p.callers[h]) > 0 {
@@ -246,6 +304,22 @@ func (p *Prog) origins(v ssa.Value) []ssa.Value {
 						k = j
 					}
 				}
+				// reached through a result of one particular call of the helper
+				for c := cx; c != nil && k >= 0; c = c.parent {
+					if c.h == h {
+						if args := c.call.Common().Args; k < len(args) {
+							saved := cx
+							cx = c.parent
+							walk(args[k], d+1)
+							cx = saved
+							return
+						}
+					}
+				}
+				if a, bound := p.bind[x]; bound && a != v {
+					walk(a, d+1)
+					return
+				}
 				if k >= 0 {
 					for _, cs := range p.callers[h] {
 						if args := cs.Common().Args; k < len(args) {
@@ -260,6 +334,11 @@ func (p *Prog) origins(v ssa.Value) []ssa.Value {
 			if x.Op == token.MUL {
 				if cell := p.localCell(x.X); cell != nil {
 					st := p.storesToCell(cell)
+					if p.flowCells {
+						if rs, ok := p.reachingStores(x, cell); ok {
+							st = rs
+						}
+					}
 					if len(st) > 0 {
 						for _, s := range st {
 							walk(s, d+1)
@@ -275,6 +354,73 @@ func (p *Prog) origins(v ssa.Value) []ssa.Value {
 	}
 	walk(v, 0)
 	return out
+}
+
+// originsFlow is origins with local variable cells read flow-sensitively: a load sees only the
+// stores that reach it (when the cell is written in its own function only).
+func (p *Prog) originsFlow(v ssa.Value) []ssa.Value {
+	saved := p.flowCells
+	p.flowCells = true
+	defer func() { p.flowCells = saved }()
+	return p.origins(v)
+}
+
+// reachingStores returns the values of the stores to cell that reach the load ld, walking the
+// control-flow graph backwards. ok is false when the cell is also written outside ld's function
+// (a closure) or the load may see the cell's zero value.
+func (p *Prog) reachingStores(ld *ssa.UnOp, cell *ssa.Alloc) ([]ssa.Value, bool) {
+	fn := ld.Parent()
+	if cell.Parent() != fn || ld.X != ssa.Value(cell) {
+		return nil, false
+	}
+	for _, f := range withClosuresLocal(topParent(fn)) {
+		if f == fn {
+			continue
+		}
+		bad := false
+		eachInstrLocal(f, func(in ssa.Instruction) {
+			if s, ok := in.(*ssa.Store); ok && isFreeVarOf(s.Addr, cell, p) {
+				bad = true
+			}
+		})
+		if bad {
+			return nil, false
+		}
+	}
+	var out []ssa.Value
+	okAll := true
+	lastIn := func(b *ssa.BasicBlock, before int) *ssa.Store {
+		for i := before - 1; i >= 0; i-- {
+			if s, ok := b.Instrs[i].(*ssa.Store); ok && s.Addr == ssa.Value(cell) {
+				return s
+			}
+		}
+		return nil
+	}
+	if s := lastIn(ld.Block(), p.idx[ld]); s != nil {
+		return []ssa.Value{s.Val}, true
+	}
+	seen := map[*ssa.BasicBlock]bool{}
+	var back func(b *ssa.BasicBlock)
+	back = func(b *ssa.BasicBlock) {
+		if len(b.Preds) == 0 {
+			okAll = false // the entry: the zero value
+			return
+		}
+		for _, pb := range b.Preds {
+			if seen[pb] {
+				continue
+			}
+			seen[pb] = true
+			if s := lastIn(pb, len(pb.Instrs)); s != nil {
+				out = append(out, s.Val)
+				continue
+			}
+			back(pb)
+		}
+	}
+	back(ld.Block())
+	return out, okAll && len(out) > 0
 }
 
 // localCell returns the Alloc (or the Alloc bound to a FreeVar) that addr
@@ -416,11 +562,13 @@ func (p *Prog) storesToField(st, field string) []Access {
 // matches one of names.
 func callsIn(fn *ssa.Function, names ...string) []ssa.CallInstruction {
 	var out []ssa.CallInstruction
+	have := map[ssa.CallInstruction]bool{}
 	eachInstr(fn, func(in ssa.Instruction) {
-		if c, ok := in.(ssa.CallInstruction); ok {
+		if c, ok := in.(ssa.CallInstruction); ok && !have[c] {
 			n := calleeName(c)
 			for _, x := range names {
 				if n == x {
+					have[c] = true
 					out = append(out, c)
 				}
 			}
@@ -447,6 +595,11 @@ func (p *Prog) canon(v ssa.Value) ssa.Value {
 	for i := 0; i < 8; i++ {
 		// a parameter of a helper with a single call site is the argument passed there
 		if prm, ok := v.(*ssa.Parameter); ok {
+			if a, bound := p.bind[prm]; bound && a != v {
+				// a path search is inside this helper: the parameter is what the call chain passed
+				v = a
+				continue
+			}
 			fn := prm.Parent()
 			if p.isPlainHelper(fn) && len(p.callers[fn]) == 1 {
 				k := -1
